@@ -24,7 +24,7 @@ import sys
 
 import numpy as np
 
-from mc import ana, framework as fw, histories, records
+from mc import ana, framework as fw, histories, pairhist, records
 from mc import resultmodel as rm
 
 PROPERTY = "C14"
@@ -66,17 +66,22 @@ def shards(tier, seed):
     from checks.c20 import RESULTS
     for k in RESULTS[:6]:
         out.append({"part": "attr", "result": k, "depth": 2 if tier == "quick" else 3, "seed": seed})
-    out.sort(key=lambda s: {"sched": 0, "attr": 1, "conf": 2, "conf_analysis": 2, "hist": 3, "selftest": 4}[s["part"]] + (0 if s.get("bound", 1) is None and s.get("K") == 3 else 0.5))
+    out += pairhist.shards_for(PROPERTY, force=True)
+    out.sort(key=lambda s: {"pairs": 0.7, "sched": 0, "attr": 1, "conf": 2, "conf_analysis": 2, "hist": 3, "selftest": 4}[s["part"]] + (0 if s.get("bound", 1) is None and s.get("K") == 3 else 0.5))
     return out
 
 
 def run_shard(shard):
     ana.quiet()
+    if shard.get("part") == "pairs":
+        return pairhist.run_pair_shard(shard, ("plan", "sched", "raw", "single", "derived", "nf"))
     return {"selftest": _selftest, "sched": _sched, "conf": _conf, "conf_analysis": _conf_analysis, "hist": _hist, "attr": _attr,
             "hist1": _hist1}[shard["part"]](shard)
 
 
 def replay(case):
+    if case.get("part") == "pairs":
+        return run_shard(case)["failures"]
     if case.get("part") == "hist1" and "result" in case:
         from checks import c20
         return c20._hist1(case)["failures"]
